@@ -31,6 +31,8 @@ impl Dev {
         requires old(self).pos <= old(self).data@.len(),
         ensures match r {
             Ok(_) => final(self).pos == old(self).pos + buf@.len() && final(self).failed@ == old(self).failed@
+                // environment: a device never grows beyond off_t (the write fails with EFBIG instead)
+                && final(self).data@.len() <= 0x7fff_ffff_ffff_ffff
                 && final(self).data@ =~= old(self).data@.subrange(0, old(self).pos as int) + buf@
                     + (if old(self).pos + buf@.len() <= old(self).data@.len() { old(self).data@.subrange(old(self).pos + buf@.len(), old(self).data@.len() as int) } else { Seq::<u8>::empty() }),
             Err(_) => final(self).failed@
@@ -88,7 +90,11 @@ pub open spec fn page(d: Seq<u8>, k: int) -> Seq<u8> { d.subrange(1024 * k, 1024
 pub open spec fn sealed_page(pg: Seq<u8>) -> bool { pg.len() == 1024 && pg.subrange(1020, 1024) == be4(crc32c(pg.subrange(0, 1020))) }
 pub open spec fn all_sealed(d: Seq<u8>) -> bool { forall|k: int| 0 <= k < d.len() / 1024 ==> sealed_page(#[trigger] page(d, k)) }
 /// physical offset of logical offset l: skip 4 checksum bytes per 1020 payload bytes
+#[verifier::opaque]
 pub open spec fn phys(l: int) -> int { (l / 1020) * 1024 + l % 1020 }
+/// logical offset of a physical offset outside checksum bytes
+#[verifier::opaque]
+pub open spec fn unphys(p: int) -> int { 1020 * (p / 1024) + p % 1024 }
 /// the logical byte stream stored on a device image: first 1020 bytes of every 1024-byte page
 pub open spec fn logical(d: Seq<u8>) -> Seq<u8> {
     Seq::new((1020 * (d.len() / 1024)) as nat, |i: int| d[phys(i)])
